@@ -13,7 +13,9 @@ RULE = (
     "operation (product/sum/divide/marginalize/maximize/reduce/normalize/scalar ops/factor_product/"
     "factor_divide/factor_sum_product, operator and method forms, in place and out of place); oracle = "
     "dictionary factors {named assignment: value} with the textbook pointwise definitions. Also operand "
-    "immutability, aliasing of results, and equality under axis/state permutation. non-trivial = binary op on "
+    "immutability, aliasing of results, and equality under axis/state permutation; wide factors (6-12 variables, few "
+    "kept axes); FactorSet product / divide / marginalize through the function the set represents (pairwise different, "
+    "strictly positive members; variables summed out that occur in one member only). non-trivial = binary op on "
     "overlapping but unequal scopes in different axis orders, or an elimination leaving >= 1 variable; "
     "distinct = sha1 of the case."
 )
@@ -486,7 +488,134 @@ def wide_case(draw):
     return {"name_kind": kind, "names": names, "card": card, "states": states, "factors": factors, "op": op, "args": args, "inplace": draw(st.booleans())}
 
 
+# ------------------------------------------------------------------------------------------------ FactorSet
+@st.composite
+def fset_case(draw):
+    """two factor sets over a small universe, strictly positive values (division), pairwise different factors (a
+    factor set is a *set*: factors that compare equal are one member, by design) and a list of variables to sum out"""
+    k = draw(st.integers(2, 5))
+    kind, names = draw(gen.node_names(k))
+    card, states = [], []
+    for _ in range(k):
+        c = draw(st.sampled_from([1, 2, 2, 3]))
+        _, sn = draw(gen.states_for(c))
+        card.append(c)
+        states.append(sn)
+    sets = []
+    serial = 0
+    for _ in range(2):
+        fs = []
+        for _ in range(draw(st.integers(1, 3))):
+            vs = list(draw(st.permutations(names)))[: draw(st.integers(1, min(3, k)))]
+            size = 1
+            for v in vs:
+                size *= card[names.index(v)]
+            serial += 1
+            # distinct by construction: the first entry encodes a serial number
+            vals = [serial + 0.125] + [draw(st.integers(1, 40)) / 8.0 for _ in range(size - 1)]
+            fs.append({"vars": vs, "values": vals})
+        sets.append(fs)
+    marg = [v for v in names if draw(st.integers(0, 2)) == 0]
+    return {"name_kind": kind, "names": names, "card": card, "states": states, "sets": sets, "marginalize": marg}
+
+
+def check_fset(case, out):
+    """FactorSet.product / divide (and *, /, factorset_product, factorset_divide): the product of the members of the
+    result is the product / quotient of the operands' products; marginalize, when every summed-out variable occurs in
+    one member only, sums the represented function; out-of-place calls leave the operands alone."""
+    from pgmpy.factors import FactorSet, factorset_divide, factorset_product
+
+    fa = [build(case, f) for f in case["sets"][0]]
+    fb = [build(case, f) for f in case["sets"][1]]
+    A = out.call("FactorSet", FactorSet, *fa)
+    B = out.call("FactorSet", FactorSet, *fb)
+    if A is RAISED or B is RAISED:
+        return
+    names = case["names"]
+
+    def ref_of(specs):
+        r = None
+        for f in specs:
+            x = Ref.from_spec(case, f)
+            r = x if r is None else r.binary(x, lambda p, q: p * q, case)
+        return r
+
+    def represented(fset):
+        r = None
+        for phi in fset.get_factors():
+            x = Ref(list(phi.variables), named(phi))
+            r = x if r is None else r.binary(x, lambda p, q: p * q, case)
+        return r
+
+    def same_function(got, want, tag):
+        if got is None or set(got.scope) != set(want.scope):
+            out.fail(f"{tag}:scope", f"{None if got is None else got.scope} vs {want.scope}")
+            return
+        for key, w in want.table.items():
+            g = got.table.get(key)
+            if g is None or not (abs(g - w) <= 1e-9 * max(1.0, abs(w))):
+                out.fail(f"{tag}:value", f"at {sorted(map(str, key))}: got {g!r} want {w!r}")
+                return
+
+    ra, rb = ref_of(case["sets"][0]), ref_of(case["sets"][1])
+    before = ([snapshot(x) for x in A.get_factors()], [snapshot(x) for x in B.get_factors()])
+
+    def untouched(tag):
+        now = ([snapshot(x) for x in A.get_factors()], [snapshot(x) for x in B.get_factors()])
+        key = lambda t: sorted(map(str, t))  # noqa: E731 - set order is not defined
+        if key(now[0]) != key(before[0]) or key(now[1]) != key(before[1]):
+            out.fail(f"{tag}:operand_modified", "")
+
+    out.nontrivial = len(fa) + len(fb) >= 3
+    out.cls(f"names_{case['name_kind']}")
+    out.evals = 0
+    prod_ref = ra.binary(rb, lambda p, q: p * q, case)
+    div_ref = ra.binary(rb, lambda p, q: p / q, case)
+    for tag, fn, want in (("fset.product", lambda: A.product(B, inplace=False), prod_ref), ("fset[*]", lambda: A * B if False else A.copy().__mul__(B), prod_ref),
+                          ("factorset_product", lambda: factorset_product(A, B), prod_ref), ("fset.divide", lambda: A.divide(B, inplace=False), div_ref),
+                          ("factorset_divide", lambda: factorset_divide(A, B), div_ref)):
+        r = out.call(tag, fn)
+        out.evals += 1
+        if r is RAISED:
+            continue
+        res = r if r is not None else None
+        if tag == "fset[*]":
+            continue  # `*` is the in-place product of a copy here: covered by the in-place variant below
+        same_function(represented(res) if res is not None else None, want, tag)
+        untouched(tag)
+    C = A.copy()
+    r = out.call("fset.product[inplace]", C.product, B, inplace=True)
+    out.evals += 1
+    if r is not RAISED:
+        same_function(represented(C), prod_ref, "fset.product[inplace]")
+    # marginalize: only when each summed-out variable lives in a single member (otherwise the member-wise rule of
+    # the documentation is not the sum of the represented function, and nothing is claimed)
+    marg = []
+    for v in case["marginalize"]:
+        holders = [f for f in case["sets"][0] if v in f["vars"]]
+        # one holder only, and that member keeps a variable (a member summed out completely becomes a scalar factor,
+        # which cannot be hashed into the set - not part of this property)
+        if len(holders) == 1 and len([x for x in holders[0]["vars"] if x not in marg and x != v]) >= 1:
+            marg.append(v)
+    if marg:
+        out.cls("fset_marginalize")
+        r = out.call("fset.marginalize", A.marginalize, list(marg), inplace=False)
+        out.evals += 1
+        if r is not RAISED and r is not None:
+            same_function(represented(r), ra.eliminate(marg, lambda p, q: p + q, case), "fset.marginalize")
+            untouched("fset.marginalize")
+        C2 = A.copy()
+        r = out.call("fset.marginalize[inplace_on_copy]", C2.marginalize, list(marg), inplace=True)
+        out.evals += 1
+        if r is not RAISED:
+            same_function(represented(C2), ra.eliminate(marg, lambda p, q: p + q, case), "fset.marginalize[inplace_on_copy]")
+            untouched("fset.marginalize[inplace_on_copy]")
+    out.sample = {"sets": [[f["vars"] for f in fs] for fs in case["sets"]], "marginalize": marg}
+
+
 SUBCHECKS = [
+    Sub("factor_set", check_fset, strategy=lambda tier: fset_case(), n={"quick": 150, "thorough": 2500}, shards={"quick": 2, "thorough": 4},
+        doc="FactorSet product / divide / marginalize: the represented function (product of the members) vs the dictionary reference; operands untouched"),
     Sub("wide_ops", check_op, strategy=lambda tier: wide_case(), n={"quick": 150, "thorough": 1500}, shards={"quick": 6, "thorough": 8},
         doc="marginalize / maximize / reduce / product on factors over 6-10 variables (axis and label bookkeeping beyond small scopes)"),
     Sub("ops", check_op, strategy=lambda tier: fcase(), n={"quick": 500, "thorough": 8000},
